@@ -18,7 +18,9 @@ Definition resetting (d : disc) : bool := match d with Assign | ClearPush => tru
 Definition discipline_ok (d : discipline) : bool :=
   resetting (d_int d) && resetting (d_first d) && resetting (d_second d).
 
-Inductive op := UpdShells (v : nat) | UpdEcps (v : nat) | CompInt | CompFirst | CompSecond.
+(* ReInit: init() called again on the same integrator (e.g. init(1) during an optimisation, init(2) for the Hessian): it rebuilds the engine and
+   re-derives the atom ids from the CURRENT coordinates; it touches neither the coordinates nor the result containers *)
+Inductive op := UpdShells (v : nat) | UpdEcps (v : nat) | CompInt | CompFirst | CompSecond | ReInit.
 
 Definition version := (nat * nat)%type.           (* (shell-coordinate version, ECP-coordinate version) *)
 Definition fsum := list version.                  (* formal sum of F at those versions *)
@@ -55,6 +57,7 @@ Section Run.
     | CompInt => mkState (sv s) (ev s) (accumulate (init_cont (d_int d) (ints s) 1) 1 v) (firsts s) (seconds s)
     | CompFirst => mkState (sv s) (ev s) (ints s) (accumulate (init_cont (d_first d) (firsts s) n_first) n_first v) (seconds s)
     | CompSecond => mkState (sv s) (ev s) (ints s) (firsts s) (accumulate (init_cont (d_second d) (seconds s) n_second) n_second v)
+    | ReInit => s
     end.
   Definition run (h : list op) : state := fold_left step h init_state.
   (* the trace of states after each operation (what the driver reads back) *)
